@@ -28,14 +28,15 @@ Plan shrink_plan(const Plan& start, const std::string& cls, const RunOpts& o, in
     const int budget0 = budget;
     bool changed = true;
     size_t keep_tail = (best.prop == "C06" && best.mode == "hist") ? 2 : 0;
-    if (best.mode == "fault") keep_tail = 1000;  // the script of an enumeration is the observed pair itself
+    if (best.mode == "fault") keep_tail = 1000;
+    const size_t keep_head = (best.mode == "krylov") ? 1 : 0;  // the first op of a direct script is its init  // the script of an enumeration is the observed pair itself
     while (changed && budget > 0)
     {
         changed = false;
         for (size_t t = 0; t < best.tasks.size(); t++)
         {
             // 1. drop ops (prefix history first)
-            for (size_t i = 0; i + keep_tail < best.tasks[t].script.size();)
+            for (size_t i = keep_head; i + keep_tail < best.tasks[t].script.size();)
             {
                 Plan c = best;
                 c.tasks[t].script.erase(c.tasks[t].script.begin() + (long) i);
